@@ -32,6 +32,8 @@ var c18Tpls = map[string]string{
 	"c.txt":  "plain {{ x }} and {{ y }}",
 	"d.css":  "p:before { content: \"{{ x }}\" } {% include inc %}",
 	"e.html": "{% extends base %}{% block b %}<{{ x }}>{{ parent() }}{% endblock %}",
+	"g.xml":  "<item a=\"{{ x }}\">{{ y }}</item>",
+	"h.xml":  "<i>{{ y|raw }}|{{ x|escape }}|{{ x|escape('html') }}</i>{% include inc %}",
 	"f.js":   "{% if x matches pat %}g('{{ y }}'){% endif %}{% for i in l %}{{ i }};{% endfor %}{{ x starts with pat ? 1 : 0 }}",
 }
 
@@ -48,6 +50,7 @@ type c18Op struct {
 
 var c18Ops = []c18Op{
 	{false, "a.html"}, {false, "b.js"}, {false, "c.txt"}, {false, "d.css"}, {false, c18Inline}, {false, "e.html"}, {true, "b.js"}, {false, "f.js"}, {true, "a.html"},
+	{false, "g.xml"}, {false, "h.xml"},
 }
 
 // c18Epoch makes template names and patterns unique per schedule / iteration ("a~17.html" is served like
@@ -317,13 +320,13 @@ func c18Levels(tier string) []core.Level {
 			}
 		}
 	}
-	triples := [][]int{{0, 1, 2}, {0, 1, 1}, {1, 0, 5}, {3, 1, 0}, {4, 1, 6}, {5, 5, 1}, {0, 7, 3}, {6, 8, 1}, {2, 4, 7}, {1, 1, 1}}
+	triples := [][]int{{0, 1, 2}, {9, 10, 1}, {1, 0, 5}, {3, 1, 0}, {10, 9, 10}, {4, 1, 6}, {5, 5, 1}, {0, 7, 3}, {6, 8, 1}, {2, 4, 7}, {1, 1, 1}, {0, 1, 1}}
 	nTriples := 5
 	if thorough(tier) {
 		nTriples = len(triples)
 	}
 	lv := []core.Level{
-		{Name: "twig env: all pairs of 9 operations (incl. the same one twice), all schedules with <= 1 preemption", Gen: func(emit func(core.Case)) { pairs(0, 1, emit) }},
+		{Name: "twig env: all pairs of 11 operations (incl. the same one twice), all schedules with <= 1 preemption", Gen: func(emit func(core.Case)) { pairs(0, 1, emit) }},
 		{Name: fmt.Sprintf("twig env: all pairs, all schedules with <= %d preemptions", bound), Gen: func(emit func(core.Case)) { pairs(0, bound, emit) }},
 		{Name: "core env: all pairs, all schedules with <= 1 preemption", Gen: func(emit func(core.Case)) { pairs(1, 1, emit) }},
 		{Name: fmt.Sprintf("twig env: %d three-thread scenarios, all schedules with <= 2 preemptions", nTriples), Gen: func(emit func(core.Case)) {
@@ -359,7 +362,7 @@ func init() {
 	core.Register(&core.Check{
 		ID:       "C18",
 		Category: "model_checking",
-		Rule: "stateless exploration of schedules under a cooperative scheduler: threads = Execute/Parse calls on ONE shared environment (9 operations: html with blocks, js, txt, css with include, inline source, child extending html, Parse), scheduling points at every loader call, writer call, filter call and before every Enter/Leave of the environment's visitors; " +
+		Rule: "stateless exploration of schedules under a cooperative scheduler: threads = Execute/Parse calls on ONE shared environment (11 operations: html with blocks, js, txt, css with include, inline source, child extending html, two templates of an unknown content type - one with raw / explicitly escaped values -, Parse), scheduling points at every loader call, writer call, filter call and before every Enter/Leave of the environment's visitors; " +
 			"all schedules with <= 2 (thorough <= 3) preemptions for all operation pairs and 10 three-thread scenarios, on the twig and the core environment. Oracle: each thread's (output, error / tree) equals its solo result; no deadlock. " +
 			"states = scheduling points visited, transitions = scheduling decisions, traces validated = complete schedules whose per-thread results were compared with the solo runs. A violating schedule is replayed twice and must reproduce. " +
 			"Data-race clause: a separate free-running pass of the same bodies (64 goroutines) under the Go race detector - this pass samples schedules",
